@@ -326,6 +326,11 @@ def gen_file(g, allow_custom=True, allow_junk=True, extreme=True, dims=None):
     for _ in range(g.integer(0, 8)):
         add_edge(rnd.choice(ets))
 
+    # the same measurement listed twice, verbatim: two lines are two edges
+    if recs_e and g.choice([False, False, True]):
+        for _ in range(rnd.randint(1, 2)):
+            recs_e.insert(rnd.randrange(len(recs_e) + 1), dict(rnd.choice(recs_e)))
+
     # ---- order: any legal order (a parameter precedes the edges that use it; vertices anywhere)
     order_mode = g.choice(["canonical", "shuffled", "shuffled", "vertices-last"])
     if order_mode == "canonical":
